@@ -168,6 +168,27 @@ class C15A(EngineBase):
                             "a": {"axes": [[ax_f], [0]], "mode": "fused"}, "echo": "sibling"})
             n3 = ctx.fresh()
             out.append({"op": "unfuse_all", "in": [n2], "out": [n3], "a": {}, "echo": "sibling"})
+            if rng.random() < 0.35:
+                # the plain twin of the fused array (same charge tables and
+                # directions, no sub-index structure) through the same second
+                # operation, before or after the fused one
+                tw = []
+                n1p = ctx.fresh()
+                tw.append({"op": "plain_twin", "in": [n1], "out": [n1p], "a": {}, "variant": "plain-twin"})
+                second = copy.deepcopy(out[-2] if mode != "fuse3" or nd < 4 else out[-3])
+                if second["in"][0] == n1:
+                    second["in"][0] = n1p
+                    second["out"] = [ctx.fresh()]
+                    second["echo"] = "plain-twin"
+                    tw.append(second)
+                    tw.append({"op": "unfuse_all", "in": [second["out"][0]], "out": [ctx.fresh()],
+                               "a": {}, "echo": "plain-twin"})
+                    if rng.random() < 0.5:
+                        # twin first: the fused array then meets the twin's plan
+                        k0 = next(i for i, s_ in enumerate(out) if s_["out"] == [n1]) + 1
+                        out[k0:k0] = tw
+                    else:
+                        out.extend(tw)
         return out
 
     def _echo(self, st, rng):
@@ -839,6 +860,9 @@ class C15C(EngineBase):
             "syms": r.choice([["Z2"], ["U1"], ["Z2Z2"], ["U1U1"], ["Z2", "U1"]]),
             "sparsity": r.choice([0.0, 0.15, 0.4]),
             "n_macro": 1,
+            # a shared array with a fused leg next to its plain twin (same
+            # tables, no sub-index structure), both given the same calls
+            "p_twin": r.choice([0.0, 0.3, 0.6]),
         }
 
     def start(self, config):
@@ -887,11 +911,44 @@ class C15C(EngineBase):
                     continue
                 ops.bind(s, heap, res)
                 out.append(s)
+        # optionally: a fused shared array and its plain twin
+        twins = {}
+        if rng.random() < cfg.get("p_twin", 0.0):
+            def fusedlegs(v):
+                return S.kind_of(v) in "AF" and any(ix.subinfo is not None for ix in v.indices)
+            cands = sorted(n for n, v in heap.items() if n.startswith("s") and fusedlegs(v))
+            if not cands:
+                for s in (ops.g_fuse(ctx, heap) or []):
+                    s = dict(s, shared=True)
+                    s["out"] = ["s" + o[1:] for o in s["out"]]
+                    try:
+                        res = ops.run_step(s, heap)
+                    except HarnessError:
+                        raise
+                    except Exception:  # noqa: BLE001
+                        continue
+                    ops.bind(s, heap, res)
+                    out.append(s)
+                cands = sorted(n for n, v in heap.items() if n.startswith("s") and fusedlegs(v))
+            if cands:
+                x = rng.choice(cands)
+                tw = "s" + ctx.fresh()[1:]
+                s = {"op": "plain_twin", "in": [x], "out": [tw], "a": {}, "shared": True}
+                try:
+                    res = ops.run_step(s, heap)
+                    ops.bind(s, heap, res)
+                    out.append(s)
+                    twins = {x: tw, tw: x}
+                    ctx.focus = [x, 8]
+                except HarnessError:
+                    raise
+                except Exception:  # noqa: BLE001
+                    pass
         # pool of templates on shared values
         pool = []
         shared_heap = dict(heap)
         tries = 0
-        while len(pool) < cfg["npool"] and tries < 40:
+        while len(pool) < cfg["npool"] + (2 if twins else 0) and tries < 40:
             tries += 1
             if rng.random() < 0.2:
                 # the same constructor call made by several threads
@@ -902,6 +959,12 @@ class C15C(EngineBase):
             steps = ops.gen_steps(ctx, shared_heap)
             if len(steps) == 1 and steps[0]["op"] not in ("new", "newvec", "del", "copy"):
                 pool.append(steps[0])
+                if any(n in twins for n in steps[0]["in"]):
+                    # the same call on the twin
+                    t2 = copy.deepcopy(steps[0])
+                    t2["in"] = [twins.get(n, n) for n in t2["in"]]
+                    t2["out"] = [ctx.fresh() for _ in t2["out"]]
+                    pool.append(t2)
         # per-thread programs, generated while executing sequentially
         for tid in range(cfg["nthreads"]):
             own = {}
